@@ -110,6 +110,7 @@ def plan_tx(tier, seed, props):
         items += [item("scalarr_4_3", o, f), item("nestarr_2", o, f), item("obj_2", o, f), item("deep", o, f / 2)]
     for o in (KEYS, O(keys=["id"], merge=True)):
         items += [item("keyed_2", o, 0.5 if q else 1.0), item("keyeddeep", o, 1.0)]
+    items += [item("strdocs", NONE, 0.5 if q else 1.0)]
     items += [dict(family="hunks_wf", opts=NONE, frac=1.0, void=False, mode="built", max=4000 if q else 60000, nf=False)]
     return items
 
@@ -237,7 +238,7 @@ CHECKS = {
     "C01": dict(stages=[Stage("dp", "TraceDP", plan_dp)], design=["ListDiff", "MCPatch-list", "MCPatch-obj"],
                 rule="session = one (a, b, options) triple: Diff as returned, Patch of every prefix on fresh documents, "
                      "Equals; non-trivial = the diff has at least one hunk"),
-    "C02": dict(stages=[Stage("tx", "TraceText", plan_tx)], design=["MCText"],
+    "C02": dict(stages=[Stage("tx", "TraceText", plan_tx, table="hostile")], design=["MCText"],
                 rule="session = one diff value (returned by Diff, or built from DiffElement fields: every well-formed single hunk, "
                      "seeded pairs and triples): Render, ReadDiffString, re-Render, colour, Patch of both on targets"),
     "C09": dict(stages=[Stage("jp", "TraceJP", plan_jp, table="pointer")], design=["MCJsonPatch"],
